@@ -17,7 +17,7 @@ import (
 // Poseidon2 permutations (16, 24, 16x24 batched), ring-SIS hashing (incl. the fast 512/16 instance).
 
 func koalabearElems(b []byte) []fr.Element {
-	out := make([]fr.Element, len(b)/4)
+	out := guardSlice[fr.Element](len(b) / 4)
 	for i := range out {
 		out[i].SetUint64(uint64(binary.LittleEndian.Uint32(b[4*i:])))
 	}
@@ -66,7 +66,7 @@ func init() {
 			alpha := ext.E4{B0: ext.E2{A0: al[0], A1: al[1]}, B1: ext.E2{A0: al[2], A1: al[3]}}
 			scale := koalabearElems(a[1])
 			rv := koalabearElems(a[2])
-			res := make([]ext.E4, len(scale))
+			res := guardSlice[ext.E4](len(scale))
 			for i := range res {
 				res[i] = ext.E4{B0: ext.E2{A0: rv[4*i], A1: rv[4*i+1]}, B1: ext.E2{A0: rv[4*i+2], A1: rv[4*i+3]}}
 			}
@@ -234,8 +234,9 @@ func init() {
 			n := rapid.OneOf(rapid.IntRange(0, maxN), rapid.Just(maxN), rapid.Just(maxN+1)).Draw(t, "n")
 			// the output slice is caller-owned: fresh (zero) or holding earlier contents (e.g. a previous hash)
 			dirty := rapid.IntRange(0, 2).Draw(t, "dirty_res")
-			return [][]byte{{byte(cfg[0]), byte(cfg[1]), byte(dirty)}, u32(maxN), koalabearVals(t, n, "v")},
-				[]string{"sis_fast512_16:" + b2s(cfg[0] == 9 && cfg[1] == 16), "sis_dirty_res:" + itoa(dirty)}, true
+			spare := rapid.IntRange(0, 1).Draw(t, "input_spare_capacity")
+			return [][]byte{{byte(cfg[0]), byte(cfg[1]), byte(dirty), byte(spare)}, u32(maxN), koalabearVals(t, n, "v")},
+				[]string{"sis_fast512_16:" + b2s(cfg[0] == 9 && cfg[1] == 16), "sis_dirty_res:" + itoa(dirty), "sis_input_dirty_spare_capacity:" + itoa(spare)}, true
 		},
 		run: func(a [][]byte) [][]byte {
 			r, err := sis.NewRSis(5, int(a[0][0]), int(a[0][1]), gu32(a[1]))
@@ -243,7 +244,15 @@ func init() {
 				return [][]byte{[]byte("new: " + err.Error())}
 			}
 			v := koalabearElems(a[2])
-			res := make([]fr.Element, r.Degree)
+			if len(a[0]) > 3 && a[0][3] == 1 { // the input is a prefix of a larger buffer whose tail holds other data
+				w := make([]fr.Element, len(v)+300)
+				copy(w, v)
+				for i := len(v); i < len(w); i++ {
+					w[i].SetUint64(uint64(i)*40503 + 11)
+				}
+				v = w[:len(v)]
+			}
+			res := guardSlice[fr.Element](r.Degree)
 			// the key material is exported (A, Ag): what the constructor leaves there, and what is there after
 			// hashing, is part of the result
 			keyDigest := func() []byte {
